@@ -73,6 +73,10 @@ Proof. intros t H. apply safe_ok, serde_safe. apply utf8_wf, H. Qed.
    for every rule and every byte string; the former counterexamples are returned unchanged *)
 Theorem C15_naming : forall r s, exists o, naming_b r s = Ok o.
 Proof. intros r s. apply safe_ok, naming_safe. Qed.
+(* the default branch of compute_field_name / compute_parameter_name for every configured value of
+   default_field_case / default_parameter_case (unknown names fall back to camelCase) *)
+Theorem C15_default_case : forall configured s, exists o, default_case_b configured s = Ok o.
+Proof. intros c s. apply safe_ok. unfold default_case_b. apply naming_safe. Qed.
 Theorem C15_naming_witness :
   naming_b RCamel (L "__") = Ok (L "__") /\
   (let ete := map ascii_of_nat [195; 169; 116; 195; 169] in utf8 ete = true /\ naming_b RCamel ete = Ok ete).
@@ -227,6 +231,7 @@ Print Assumptions C15_parse_rename.
 Print Assumptions C15_rename_witness.
 Print Assumptions C15_serde.
 Print Assumptions C15_naming.
+Print Assumptions C15_default_case.
 Print Assumptions C15_naming_witness.
 Print Assumptions C15_event_name_to_function.
 Print Assumptions C15_variant.
